@@ -299,6 +299,8 @@ def d8(ctx, prog):
 
 
 def run(ctx, prog):
+    from .. import universe as _uni0
+    _uni0.inline_base_entry_points(ctx, prog)
     ctx.rule('C04-D1', 'one "count is positive" mask selects the class axis of counters, sum and sum_square; only masked values reach the metric')
     ctx.rule('C04-D2', 'metrics read only their parameters, store nothing, use no constant class position')
     ctx.rule('C04-D3', 'partitioned _compute maps inf -> NaN before storing each row')
